@@ -149,7 +149,8 @@ def define(d, mod, names):
 def new_module(name):
     mod = types.ModuleType(name)
     exec("from dataclasses import dataclass, field\nfrom typing import List, Optional, Union\n"
-         "from xsdata.models.datatype import XmlDate\n", mod.__dict__)
+         "from xsdata.models.datatype import XmlDate\nfrom decimal import Decimal\n"
+         "class Money(Decimal):\n    pass\nclass MyInt(int):\n    pass\nclass MyStr(str):\n    pass\n", mod.__dict__)
     return mod
 
 
@@ -182,7 +183,32 @@ def py_literal(x):
     if tag == "d":
         from xsdata.models.datatype import XmlDate
         return XmlDate.from_string(v)
+    if tag in ("m", "mi", "ms"):      # user subclasses of primitive types, defined in the pool module
+        return getattr(sys.modules[POOL_MOD], {"m": "Money", "mi": "MyInt", "ms": "MyStr"}[tag])(v)
     return {"s": str, "i": int, "f": float, "b": bool}[tag](v)
+
+
+def global_state():
+    """Fingerprint of the process-wide mutable state of the library that binding results may
+    depend on: no operation on any instance may change it (it is shared by used and fresh instances
+    alike, so a per-instance baseline cannot see such a dependence)."""
+    from xsdata.formats.converter import converter
+    from xsdata.formats.dataclass.compat import class_types
+    from xsdata.models import enums
+    reg = sorted(f"{t.__module__}.{t.__qualname__}->{type(c).__name__}" for t, c in converter.registry.items())
+    idx = {k: len(v) for k, v in vars(enums).items() if k.startswith("__DataType") and isinstance(v, dict)}
+    return {"converter.registry": reg, "class_types": sorted(class_types.types), "enums": idx}
+
+
+def global_diff(a, b):
+    out = []
+    for k in a:
+        if a[k] != b[k]:
+            if isinstance(a[k], list):
+                out.append(f"{k}: +{sorted(set(b[k]) - set(a[k]))} -{sorted(set(a[k]) - set(b[k]))}")
+            else:
+                out.append(f"{k}: {a[k]} -> {b[k]}")
+    return "; ".join(out)
 
 
 def tree_of_obj(o):
@@ -316,7 +342,8 @@ def run_op(inst, op):
             return {"ok": tree_of_obj(inst.jp.from_string(json.dumps(op["data"]), clz(op["clazz"])))}
         if k in ("oser", "ojser"):
             # a value given literally (not obtained by parsing): [[field, [[tag, literal], ...]], ...]
-            obj = clz(op["clazz"])(**{f: [py_literal(x) for x in items] for f, items in op["fields"]})
+            obj = clz(op["clazz"])(**{f: ([py_literal(x) for x in items] if isinstance(items[0], list) else py_literal(items))
+                                  for f, items in op["fields"]})
             return {"ok": ["x:" + (inst.xs if k == "oser" else inst.js).render(obj), []]}
         if k in ("odec", "odecs"):
             return {"ok": ["x:" + repr((inst.dd if k == "odec" else inst.dds).decode(op["data"], clz(op["clazz"]))), []]}
@@ -422,12 +449,15 @@ def setup_world(inp, instances=None):
 
 def main():
     inp = json.load(sys.stdin)
+    g_start = global_state()
     wd = setup_world(inp)
+    g_warm = global_state()
     ambient, order, modules0, pool, names, dyn, probe, ops = (wd[k] for k in (
         "ambient", "order", "modules0", "pool", "names", "dyn", "probe", "ops"))
 
     runs = []
     fresh = None
+    g0 = global_state()
     for seq in inp["seqs"]:
         shared = Instances()
         made, mods = [], []
@@ -458,8 +488,12 @@ def main():
             ts = shared.ctx.log
             fresh = Instances()
             rf = run_op(fresh, op)
-            out.append({"shared": rs, "fresh": rf, "ts": ts, "tf": fresh.ctx.log,
-                        "mod": [before, len(sys.modules)]})
+            rec = {"shared": rs, "fresh": rf, "ts": ts, "tf": fresh.ctx.log, "mod": [before, len(sys.modules)]}
+            g1 = global_state()
+            if g1 != g0:
+                rec["glob"] = global_diff(g0, g1)
+                g0 = g1
+            out.append(rec)
         runs.append(out)
         # tear the run-time classes down again
         shared = fresh = rs = rf = None
@@ -483,7 +517,11 @@ def main():
         if left != order or len(sys.modules) != modules0:
             raise SystemExit(f"world not restored after a sequence: {left} vs {order}; "
                              f"modules {len(sys.modules)} vs {modules0}")
-    json.dump({"ambient": ambient, "order": order, "modules0": modules0, "runs": runs}, sys.stdout)
+    res = {"ambient": ambient, "order": order, "modules0": modules0, "runs": runs}
+    if g_warm != g_start:
+        # some operation changed process-wide state when it ran for the first time (warm-up pass)
+        res["glob_warmup"] = global_diff(g_start, g_warm)
+    json.dump(res, sys.stdout)
 
 
 if __name__ == "__main__":
